@@ -8,7 +8,7 @@ from __future__ import annotations
 import contextlib
 import json
 import logging
-from collections.abc import Callable
+from collections.abc import Callable, Sequence
 from enum import Enum
 from io import IOBase
 from typing import TYPE_CHECKING, Any, cast, get_origin
@@ -248,11 +248,51 @@ def _write_error_batch(
 
 
 def _write_error_stream(
-    writer_stream: IOBase, schema: pa.Schema, exc: BaseException, server_id: str | None = None
+    writer_stream: IOBase,
+    schema: pa.Schema,
+    exc: BaseException,
+    server_id: str | None = None,
+    *,
+    sink: _ClientLogSink | None = None,
 ) -> None:
-    """Write a complete IPC stream containing just an error batch."""
+    """Write a complete IPC stream containing an error batch.
+
+    When *sink* is given, client log messages it has buffered (emitted by the
+    method before it raised) are written ahead of the error batch, so they
+    reach the client as they do for a unary call.
+    """
     with new_ipc_stream(writer_stream, schema) as writer:
+        if sink is not None:
+            sink.flush_contents(writer, schema)
         _write_error_batch(writer, schema, exc, server_id=server_id)
+    if sink is not None:
+        sink.reset()
+
+
+def _pending_log_metadata(out: OutputCollector | None) -> list[pa.KeyValueMetadata]:
+    """Metadata of the client-log batches an ``OutputCollector`` has accumulated.
+
+    Used on error paths: ``process()`` raised, so the collector is never
+    flushed, but the log messages emitted before the failure still belong to
+    the client.
+    """
+    if out is None:
+        return []
+    return [
+        ab.custom_metadata
+        for ab in out.batches
+        if ab.batch.num_rows == 0
+        and ab.custom_metadata is not None
+        and ab.custom_metadata.get(LOG_LEVEL_KEY) is not None
+    ]
+
+
+def _write_log_metadata_batches(
+    writer: ipc.RecordBatchStreamWriter, schema: pa.Schema, logs: Sequence[pa.KeyValueMetadata]
+) -> None:
+    """Write one zero-row batch per already-encoded log metadata entry."""
+    for md in logs:
+        writer.write_batch(empty_batch(schema), custom_metadata=md)
 
 
 class _ClientLogSink:
@@ -279,6 +319,16 @@ class _ClientLogSink:
         for msg in self._buffer:
             _write_message_batch(writer, schema, msg, server_id=self._server_id)
         self._buffer.clear()
+
+    def buffered_metadata(self) -> list[pa.KeyValueMetadata]:
+        """Encode the still-buffered messages as log-batch metadata (for an error response built elsewhere)."""
+        out: list[pa.KeyValueMetadata] = []
+        for msg in self._buffer:
+            md = msg.add_to_metadata()
+            if self._server_id is not None:
+                md[SERVER_ID_KEY.decode()] = self._server_id
+            out.append(encode_metadata(md))
+        return out
 
     def reset(self) -> None:
         """Clear writer/schema references, reverting to buffer mode.
